@@ -13,7 +13,7 @@ IMPORTS = 'Bytes Run Stores StoresRun'
 
 IDENTS = ['alice', 'bob', 'Bob', 'BOB', "o'brien", 'a"b', "x'; DROP TABLE authkeys; --", 'sensor_1', 'sensorX1', 'a%', '%', '_', 'ünï',
           'ß', 'ss', 'straße', '../../etc/passwd', 'a,b', 'a b', 'bob_owner', 'bob_secret', 'x_y_z', '日本', 'ident']
-CHANS = ['chan1', 'x', 'y.z', 'ü', 'a b', "q'", 'c-d']
+CHANS = ['chan1', 'x', 'y.z', 'ü', 'a b', "q'", 'c-d', ' lead', 'trail ', '\u2003wide', 'tab\t', ' ', 'X', 'x ']
 
 
 def gen_users(rng, n=None):
